@@ -20,6 +20,7 @@ from vlib import f32_bits_to_fraction
 from props import c13 as base
 from props import c12
 from props.visual_c01 import _shrink_dets
+from props import visual_c15
 
 MARGIN = Fraction(1, 100000)
 
@@ -31,7 +32,13 @@ def scene_calls(spec_line, scene):
 
 
 def project(spec_line, scene):
-    return base.spec_with_calls(spec_line, ";".join(scene_calls(spec_line, scene)))
+    """the calls of one scene only, each as its own request (a batch grouping of the interleaved history is dropped)"""
+    toks = [t for t in spec_line.split() if not t.startswith("grp=")]
+    return base.spec_with_calls(" ".join(toks) + " grp=-", ";".join(scene_calls(spec_line, scene)))
+
+
+def grouped(line):
+    return base._kv(line.split()).get("grp", "-") != "-"
 
 
 def scenes_of(spec_line):
@@ -268,6 +275,9 @@ def c04_visual_stage(chk):
         hist["scenes=%d" % len(scenes_of(s["line"]))] += 1
         hist["constraints=%s" % ("none" if d.get("stc", "-") == "-" else "set")] += 1
         hist["positional=%s" % ("maha" if s["pos_iou"] is None else "iou")] += 1
+        hist["own_area=%s" % ("on" if s["ownuse"] + s["owncol"] > 0 else "off")] += 1
+        if grouped(s["line"]):
+            hist["multi_scene_batches"] += 1
         f = cross_scene(c)
         if i in projs:
             f2, st = run_pair(c, projs[i])
@@ -314,15 +324,26 @@ def c04_visual_stage(chk):
             pair = clause == "run-pair"
 
             def fails(line, clause=clause, pair=pair):
-                ff, _, _ = check_line(line, need_pair=pair)
-                return any(k == clause for k, _, _ in ff)
-            calls = [x for x in c["spec"]["calls_txt"].split(";") if x]
-            line = base.spec_with_calls(c["spec"]["line"], ";".join(calls[:ci0 + 1]))
-            if not fails(line):
-                line = c["spec"]["line"]
-            small = base.shrink_spec(line, fails, budget=30)
-            small = _shrink_dets(small, fails, budget=30)
-            ff, _, inter = check_line(small, need_pair=pair)
+                # the order of the scenes inside a multi-scene batch (a HashMap) may differ between runs: look a few times
+                for _ in range(3 if grouped(line) else 1):
+                    ff, _, _ = check_line(line, need_pair=pair)
+                    if any(k == clause for k, _, _ in ff):
+                        return True
+                return False
+            if grouped(c["spec"]["line"]):
+                # batches / scenes of a batch / boxes (keeps the batch structure consistent)
+                small = visual_c15.shrink(c["spec"]["line"], fails, budget=60)
+            else:
+                calls = [x for x in c["spec"]["calls_txt"].split(";") if x]
+                line = base.spec_with_calls(c["spec"]["line"], ";".join(calls[:ci0 + 1]))
+                if not fails(line):
+                    line = c["spec"]["line"]
+                small = base.shrink_spec(line, fails, budget=30)
+                small = _shrink_dets(small, fails, budget=30)
+            for _ in range(6 if grouped(small) else 1):
+                ff, _, inter = check_line(small, need_pair=pair)
+                if any(k == clause for k, _, _ in ff):
+                    break
             recs = [(call["scene"], [(d["uid"], r["id"], r["len"], r["vt"]) for d, r in zip(call["dets"], call["recs"])]) for call in (inter["calls"] if inter else [])]
             chk.violation("C04:visual:" + clause, what0,
                           {"stage": "visual_c04", "input": small, "tracker": c["spec"]["trk"], "clause": clause,
@@ -345,7 +366,10 @@ def c04_visual_replay(chk, path):
     if rep.get("stage") != "visual_c04":
         return None
     vlib.harness_build(["visual"])
-    f, st, inter = check_line(rep["input"], need_pair=True)
+    for _ in range(8 if grouped(rep["input"]) else 1):     # batch order may differ between runs
+        f, st, inter = check_line(rep["input"], need_pair=True)
+        if f:
+            break
     for call in (inter["calls"] if inter else []):
         print("call %d scene %d:" % (call["j"], call["scene"]), [(d["uid"], r["id"], r["len"], r["vt"]) for d, r in zip(call["dets"], call["recs"])])
     for x in f[:10]:
